@@ -223,6 +223,13 @@ class MockNumba:
 
 class MockCuda:
 
+    class atomic:
+        @staticmethod
+        def add(array, index, value):
+            old = array[index]
+            array[index] += value
+            return old
+
     def __init__(self):
         self.x = 0
         self.y = 0
